@@ -9,6 +9,8 @@ mod c14;
 mod c15;
 mod c16;
 mod c18;
+mod c19;
+mod c20;
 mod cairo_corpus;
 mod sierra;
 mod core;
@@ -18,7 +20,7 @@ mod text;
 use crate::core::{CheckDef, Tier};
 
 fn defs() -> Vec<&'static CheckDef> {
-    vec![&cexec::C02, &cexec::C04, &cexec::C05, &c10::C09, &c10::C10, &c11::C11, &c14::C14, &c15::C15, &c16::C16, &cexec::C17, &c18::C18]
+    vec![&cexec::C02, &cexec::C04, &cexec::C05, &c10::C09, &c10::C10, &c11::C11, &c14::C14, &c15::C15, &c16::C16, &cexec::C17, &c18::C18, &c19::C19, &c20::C20]
 }
 
 fn main() {
